@@ -85,6 +85,7 @@ theorem insert_step {s : Store} {pt sch : Levels} {tbls : List (Bytes × Levels)
     (schema : List FieldDef) (hsch : schemaOf sch table = some schema)
     (cols : List Bytes) (vals vs : List Val) (hvalid : ∀ v ∈ vals, ValidVal v)
     (hrow : Spec.rowOf (absTable table schema t) cols vals = some vs)
+    (hnames : checkColumns schema (colsOf schema (cols.map Engine.bytesToName)) = none)
     (hside : ∀ buf t' nf',
       encodeTuple schema ((colsOf schema (cols.map Engine.bytesToName)).zip vals).reverse = .ok buf →
       insertAppend t (s.hdr.lastKey + 1) s.hdr.nextLSN buf s.hdr.nextFree = .ok (t', nf') →
@@ -106,7 +107,7 @@ theorem insert_step {s : Store} {pt sch : Levels} {tbls : List (Bytes × Levels)
     (fun a ha => Nat.lt_succ_of_le (hkt a ha)) hsz
   obtain ⟨hd', hl', hbig⟩ := hside buf t' nf' henc hins
   obtain ⟨s', ptF, logs, e, hc, hlk, hnf, hcase⟩ := insert_refines s pt sch tbls h.cat table t ht
-    (cols.map Engine.bytesToName) vals schema buf hsch hlen henc hsz t' nf' hins hd' hl' hbig
+    (cols.map Engine.bytesToName) vals schema buf hsch hlen hnames henc hsz t' nf' hins hd' hl' hbig
   refine ⟨s', ptF, logs, buf, t', nf', e, henc, hins, ⟨hc, ?_⟩, hlk, hnf, ?_⟩
   · -- the abstraction
     obtain ⟨schema', hsch', hdec, _⟩ := h.tabs.find h.cat.tnames ht
@@ -176,6 +177,7 @@ theorem evalInsert_go_spec (db : Engine.DB) (table : Bytes) (cols : List Bytes) 
       Abs s pt sch tbls sdb → (table, t) ∈ tbls →
       (∀ r ∈ rows, ∀ v ∈ r, ValidVal v) →
       rows.mapM (Spec.rowOf ⟨table, schema, []⟩ cols) = some newRows →
+      (rows = [] ∨ checkColumns schema (colsOf schema (cols.map Engine.bytesToName)) = none) →
       InsRunOK schema (cols.map Engine.bytesToName) t s.hdr.lastKey s.hdr.nextLSN s.hdr.nextFree rows →
       ∃ s' ptF t' logs,
         Engine.evalInsert.go db table cols s batch n (rows ++ tail) =
@@ -187,7 +189,7 @@ theorem evalInsert_go_spec (db : Engine.DB) (table : Bytes) (cols : List Bytes) 
   intro rows
   induction rows with
   | nil =>
-    intro newRows s pt tbls t sdb batch n h ht _ hrows _
+    intro newRows s pt tbls t sdb batch n h ht _ hrows _ _
     rw [mapM_nil_some] at hrows
     subst hrows
     refine ⟨s, pt, t, [], ?_, .nil s, ?_, rfl⟩
@@ -197,9 +199,13 @@ theorem evalInsert_go_spec (db : Engine.DB) (table : Bytes) (cols : List Bytes) 
       rw [updRows_id]
       exact h
   | cons r rest ih =>
-    intro newRows s pt tbls t sdb batch n h ht hvalid hrows hrun
+    intro newRows s pt tbls t sdb batch n h ht hvalid hrows hnames hrun
     obtain ⟨vs, newRest, hr, hrest, rfl⟩ := (mapM_cons_some _ _ _ _).mp hrows
-    have hstep := insert_step h table t ht schema hsch cols r vs (hvalid r List.mem_cons_self) hr
+    have hnames' : checkColumns schema (colsOf schema (cols.map Engine.bytesToName)) = none := by
+      rcases hnames with h0 | h0
+      · cases h0
+      · exact h0
+    have hstep := insert_step h table t ht schema hsch cols r vs (hvalid r List.mem_cons_self) hr hnames'
       (fun buf t' nf' he hi => by
         obtain ⟨a, b, c, _⟩ := hrun buf t' nf' he hi
         exact ⟨a, b, c⟩)
@@ -208,7 +214,7 @@ theorem evalInsert_go_spec (db : Engine.DB) (table : Bytes) (cols : List Bytes) 
     rw [← hlk1, ← hnf1, ← hlsn1] at hrun1
     obtain ⟨s', ptF, t', logs', ego, happ, habs', hlk'⟩ := ih newRest s1 ptF1 (setTable tbls table t1) t1 _
       (batch ++ logs1) (n + 1) habs1 (mem_setTable_self t1 ht)
-      (fun r' hr' => hvalid r' (List.mem_cons_of_mem _ hr')) hrest hrun1
+      (fun r' hr' => hvalid r' (List.mem_cons_of_mem _ hr')) hrest (.inr hnames') hrun1
     refine ⟨s', ptF, t', logs1 ++ logs', ?_, .cons e1 happ, ?_, ?_⟩
     · simp only [List.cons_append, Engine.evalInsert.go, e1, ego, List.length_cons]
       rw [List.append_assoc, Nat.add_assoc, Nat.add_comm 1]
@@ -250,16 +256,24 @@ theorem evalInsert_refines_spec (db : Engine.DB) (pt sch : Levels) (tbls : List 
   rw [hsch] at hsch'
   simp only [Option.some.injEq] at hsch'
   subst hsch'
+  have hnames : rows = [] ∨ checkColumns schema (colsOf schema (cols.map Engine.bytesToName)) = none := by
+    cases rows with
+    | nil => exact .inl rfl
+    | cons r rest =>
+      exact .inr (checkColumns_of_namesOK (absTable table schema t) cols (h.tabs.names_nodup ht hsch)
+        (specInsert_namesOK hfind hspec))
   unfold Spec.specInsert at hspec
   rw [hfind] at hspec
   simp only [Option.bind_eq_bind, Option.bind_some] at hspec
+  split at hspec
+  · cases hspec
   cases hm : rows.mapM (Spec.rowOf (absTable table schema t) cols) with
   | none => rw [hm] at hspec; cases hspec
   | some newRows =>
     rw [hm] at hspec
     simp only [Option.bind_some, Option.pure_def, Option.some.injEq] at hspec
     obtain ⟨s', ptF, t', logs, ego, happ, habs, hlk⟩ := evalInsert_go_spec db table cols sch schema hsch [] rows
-      newRows db.store pt tbls t sdb [] 0 h ht hvalid hm hrun
+      newRows db.store pt tbls t sdb [] 0 h ht hvalid hm hnames hrun
     rw [List.append_nil] at ego
     refine ⟨{ store := s', wal := db.wal ++ ([] ++ logs) }, ptF, t', logs, newRows, _, ?_, ?_, happ, rfl, rfl, habs,
       ?_, hlk⟩
